@@ -18,6 +18,9 @@ typedef struct {
     size_t evlen, evcap;
 } hconn_t;
 
+/* builds without ASan (cov, plain) have no allocator statistics: the `mem` operation then reports 0 */
+__attribute__((weak)) size_t __sanitizer_get_current_allocated_bytes(void) { return 0; }
+
 static hconn_t g_conns[MAXCONN];
 /* the chunk of the data call that is currently running, per direction (NULL when none) */
 static const unsigned char *g_live_req, *g_live_res; static size_t g_live_req_len, g_live_res_len;
